@@ -91,3 +91,125 @@ Proof.
     exists p0, p1. repeat split; auto.
     rewrite lookup_cons_neq in H0 by exact Hxy. rewrite lookup_remove_neq in H0 by exact Hxy. exact H0.
 Qed.
+
+(* ------------------------------------------------------------------------------------------ *)
+(** * parsing of a mutation: what the entries and the variable table look like *)
+
+Lemma lookup_in_pair : forall A (x : N) (a : A) l, lookup x l = Some a -> In (x, a) l.
+Proof.
+  intros A x a l. induction l as [|[y b] l IH]; cbn [lookup]; [discriminate|].
+  destruct (N.eqb x y) eqn:E; intro H.
+  - apply N.eqb_eq in E. inversion H. subst. left. reflexivity.
+  - right. auto.
+Qed.
+
+Lemma vtype_eqb_eq : forall a b, vtype_eqb a b = true -> a = b.
+Proof.
+  intros a b; destruct a, b; cbn [vtype_eqb]; try discriminate; try reflexivity;
+    intro H; apply Bool.eqb_prop in H; subst; reflexivity.
+Qed.
+
+Lemma NoDup_app_one : forall A (l : list A) a, NoDup l -> ~ In a l -> NoDup (l ++ [a]).
+Proof.
+  intros A l a Hnd Hn. induction Hnd as [|b l Hb Hnd IH]; cbn [app].
+  - constructor; [intros []|constructor].
+  - constructor.
+    + intro Hin. apply in_app_or in Hin. destruct Hin as [Hin|[Hin|[]]]; [contradiction|].
+      subst. apply Hn. left. reflexivity.
+    + apply IH. intro. apply Hn. right. assumption.
+Qed.
+
+Lemma vars_add_spec : forall vs x vt vs',
+  vars_add vs x vt = Some vs' -> NoDup (map fst vs) ->
+  NoDup (map fst vs') /\ In (x, vt) vs' /\ incl vs vs'.
+Proof.
+  intros vs x vt vs' H Hnd. unfold vars_add in H.
+  destruct (lookup x vs) as [vt'|] eqn:El.
+  - destruct (vtype_eqb vt' vt) eqn:Ee; [|discriminate]. inversion H; subst.
+    apply vtype_eqb_eq in Ee. subst. split; [exact Hnd|]. split; [apply lookup_in_pair; exact El|apply incl_refl].
+  - inversion H; subst. split.
+    + rewrite map_app. cbn [map fst]. apply NoDup_app_one; [exact Hnd|]. apply lookup_none_notin. exact El.
+    + split; [apply in_or_app; right; left; reflexivity|apply incl_appl, incl_refl].
+Qed.
+
+Lemma parse_value_spec : forall k v vs fv vs',
+  parse_value k v vs = Some (fv, vs') -> NoDup (map fst vs) ->
+  NoDup (map fst vs') /\ incl vs vs' /\ (forall x, fv = FVar x -> v = MVar x /\ In (x, variable_type k) vs').
+Proof.
+  intros k v vs fv vs' H Hnd. destruct v; cbn [parse_value] in H.
+  - destruct (vars_add vs x (variable_type k)) as [vs1|] eqn:Ea; [|discriminate]. inversion H; subst.
+    destruct (vars_add_spec _ _ _ _ Ea Hnd) as (H1 & H2 & H3). repeat split; auto.
+    + intros y Hy. inversion Hy; subst. reflexivity.
+    + inversion H0; subst. exact H2.
+  - destruct (field_nullable k); [|discriminate]. inversion H; subst. repeat split; auto using incl_refl; intros; discriminate.
+  - destruct (field_type k); try discriminate; inversion H; subst; repeat split; auto using incl_refl; intros; discriminate.
+  - destruct (field_type k); try discriminate; [inversion H; subst; repeat split; auto using incl_refl; intros; discriminate|].
+    destruct fits_i64; [|discriminate]. inversion H; subst; repeat split; auto using incl_refl; intros; discriminate.
+  - destruct (field_type k); try discriminate; inversion H; subst; repeat split; auto using incl_refl; intros; discriminate.
+  - destruct (field_type k); try discriminate.
+    + destruct (s_b64 s); [|discriminate]. inversion H; subst; repeat split; auto using incl_refl; intros; discriminate.
+    + inversion H; subst; repeat split; auto using incl_refl; intros; discriminate.
+    + destruct (s_json s); [|discriminate]. inversion H; subst; repeat split; auto using incl_refl; intros; discriminate.
+Qed.
+
+(* an entry of the parsed mutation that comes from the text of the request [all] *)
+Definition from_text (decl : list (ftype * nullab)) (all : list (fref * mvalue)) (vs : vars)
+           (e : fref * fkind * mfv) : Prop :=
+  let '(r, k, fv) := e in
+  fkind_of decl r = Some k
+  /\ (exists v vs0 vs1, In (r, v) all /\ parse_value k v vs0 = Some (fv, vs1))
+  /\ (forall x, fv = FVar x -> In (x, variable_type k) vs).
+
+Lemma from_text_mono : forall decl all vs vs' e, incl vs vs' -> from_text decl all vs e -> from_text decl all vs' e.
+Proof.
+  intros decl all vs vs' [[r k] fv] Hi (H1 & H2 & H3). repeat split; auto.
+Qed.
+
+Lemma parse_fields_inv : forall decl all fs acc vs l vs',
+  parse_fields decl fs acc vs = Some (l, vs') ->
+  incl fs all -> NoDup (map fst vs) -> Forall (from_text decl all vs) acc ->
+  NoDup (map fst vs') /\ Forall (from_text decl all vs') l.
+Proof.
+  intros decl all. induction fs as [|[r v] fs IH]; intros acc vs l vs' H Hincl Hnd Hacc; cbn [parse_fields] in H.
+  - inversion H; subst. split; assumption.
+  - destruct (fkind_of decl r) as [k|] eqn:Ek; [|discriminate].
+    destruct (parse_value k v vs) as [[fv vs1]|] eqn:Ep; [|discriminate].
+    destruct (existsb (fun e => fref_eqb (fst (fst e)) r) acc); [discriminate|].
+    destruct (parse_value_spec _ _ _ _ _ Ep Hnd) as (Hnd1 & Hi1 & Hv).
+    apply (IH _ _ _ _ H); [intros x Hx; apply Hincl; right; exact Hx|exact Hnd1|].
+    apply Forall_app. split.
+    + eapply Forall_impl; [|exact Hacc]. intros e He. eapply from_text_mono; eauto.
+    + constructor; [|constructor]. repeat split; auto.
+      * exists v, vs, vs1. split; [apply Hincl; left; reflexivity|exact Ep].
+      * intros x Hx. apply (Hv x Hx).
+Qed.
+
+Definition default_entry (e : fref * fkind * mfv) : Prop :=
+  exists i t n, e = (RField i, FUser t n, FVal (default_value t)).
+
+Lemma fill_defaults_inv : forall (P : fref * fkind * mfv -> Prop) decl i l l',
+  fill_defaults decl i l = Some l' -> Forall (fun e => P e \/ default_entry e) l ->
+  Forall (fun e => P e \/ default_entry e) l'.
+Proof.
+  intros P. induction decl as [|[t n] decl IH]; intros i l l' H Hl; cbn [fill_defaults] in H.
+  - inversion H; subst. exact Hl.
+  - destruct (has_ref (RField i) l); [eapply IH; eauto|].
+    destruct n; [discriminate|eapply IH; eauto|].
+    eapply IH; [exact H|]. apply Forall_app. split; [exact Hl|]. constructor; [|constructor].
+    right. exists i, t, HasDefault. reflexivity.
+Qed.
+
+Lemma parse_mutation_inv : forall m l vs,
+  parse_mutation m = Some (l, vs) ->
+  NoDup (map fst vs) /\ Forall (fun e => from_text (m_decl m) (m_vals m) vs e \/ default_entry e) l.
+Proof.
+  intros m l vs H. unfold parse_mutation in H.
+  destruct (parse_fields (m_decl m) (m_vals m) [] []) as [[l0 vs0]|] eqn:Ep; [|discriminate].
+  destruct (parse_fields_inv _ (m_vals m) _ _ _ _ _ Ep (incl_refl _) (NoDup_nil _) (Forall_nil _)) as (Hnd & Hl).
+  assert (Hl0 : Forall (fun e => from_text (m_decl m) (m_vals m) vs0 e \/ default_entry e) l0).
+  { eapply Forall_impl; [|exact Hl]. intros; left; assumption. }
+  destruct (has_ref RId l0).
+  - inversion H; subst. split; assumption.
+  - destruct (fill_defaults (m_decl m) 0 l0) as [l1|] eqn:Ef; [|discriminate]. inversion H; subst.
+    split; [exact Hnd|]. eapply fill_defaults_inv; eauto.
+Qed.
